@@ -586,7 +586,17 @@ class BasePool(typing.Generic[C]):
         started_at: float,
     ) -> None:
         self._log_to_snapshot(dbname=from_block.dbname, event='transfer-from')
-        await self._disconnect(from_conn, from_block)
+        try:
+            await self._disconnect(from_conn, from_block)
+        except Exception:
+            # The capacity of the old connection has been released either
+            # way, and the target block is still waiting for the connection
+            # that was promised to it (`pending_conns`).
+            logger.error(
+                "Failed to close a connection to backend database: %s",
+                from_block.dbname,
+                exc_info=True,
+            )
         from_block.log_connection('transferred out')
         self._cur_capacity += 1
         await self._connect(to_block, started_at, 'transferred in')
